@@ -99,6 +99,7 @@ class eapol(packet_base):
             pass                # These types have no payloads.
         else:
             self.msg('warning unsupported EAPOL type: %s' % (self.type_name(self.type),))
+            self.next = raw[self.MIN_LEN:]
 
     def hdr(self, payload):
         return struct.pack('!BBH', self.version, self.type, self.bodylen)
